@@ -640,9 +640,11 @@ def c17(rep, tier, seed, wd):
 
 
 def police_sets(types_present, rng, k):
-    alpha = sorted(set(types_present) | {6, 36, 32802, 0x7fff, 0x8000, 0xffff, 0})
+    alpha = sorted(set(types_present) | {6, 36, 32802, 0x7fff, 0x8000, 0xffff, 0, 8, 28, 32808})
     many = sorted(set(alpha) | set(range(0x0100, 0x0128)))
     out = [[[], []], [alpha, []], [alpha, alpha[:2]], [many, many]]
+    # the ending attributes as requirements (present or not, exposed or hidden), one at a time and together
+    out += [[alpha, [32808]], [alpha, [8]], [alpha, [28]], [[], [8, 28, 32808]]]
     for _ in range(k):
         sup = [t for t in alpha if rng.random() < 0.6]
         req = [t for t in alpha if rng.random() < 0.25]
